@@ -91,6 +91,19 @@ TEXT_TEMPLATES = {
 }
 
 
+# definitions that must be REJECTED, with the fault placed after (or next to) a huge attribute: the error path is analysed as
+# symbolically as the success path (building the diagnostic must not enumerate the layout either)
+REJECTED_TEMPLATES = {
+    "failed-assert-after-big": lambda n: {"vns/T.1.0.dsdl": "uint8[<=%d] big\nuint16[%d] more\n@assert 1 == 2\n@sealed\n" % (n, n)},
+    "failed-assert-in-response-after-big": lambda n: {"vns/T.1.0.dsdl": "bool[<=%d] big\n@sealed\n---\nvns.E.1.0[<=%d] es\n@assert false\n@sealed\n" % (n, n), "vns/E.1.0.dsdl": "uint8[<=2] x\n@sealed\n"},
+    "duplicate-name-after-big": lambda n: {"vns/T.1.0.dsdl": "uint8[<=%d] big\nbool big\n@sealed\n" % n},
+    "bad-type-after-big": lambda n: {"vns/T.1.0.dsdl": "vns.E.1.0[<=%d] es\nuint65 wide\n@sealed\n" % n, "vns/E.1.0.dsdl": "uint8[<=2] x\n@sealed\n"},
+    "extent-too-small-for-big": lambda n: {"vns/T.1.0.dsdl": "vns.E.1.0[%d] es\n@extent 8\n" % n, "vns/E.1.0.dsdl": "uint8[<=2] x\n@sealed\n"},
+    "unresolved-after-big": lambda n: {"vns/T.1.0.dsdl": "uint3[<=%d] big\nvns.Nope.1.0 x\n@sealed\n" % n},
+    "missing-mode-after-big": lambda n: {"vns/T.1.0.dsdl": "@union\nuint8[<=%d] big\nvns.E.1.0[%d] es\n" % (n, n), "vns/E.1.0.dsdl": "uint8[<=2] x\n@sealed\n"},
+}
+
+
 class Counter:
     """Deterministic step counter based on sys.monitoring (Python 3.12)."""
 
@@ -249,11 +262,11 @@ def operations(desc, other_desc):
 
 
 def plan(tier):
-    return [{"template": name} for name in templates()] + [{"template": name, "text": True} for name in ("varr-bool", "varr-of-struct", "delimited-extent", "depth3", "four-fields")] + [{"template": name, "text": True} for name in TEXT_TEMPLATES]
+    return [{"template": name} for name in templates()] + [{"template": name, "text": True} for name in ("varr-bool", "varr-of-struct", "delimited-extent", "depth3", "four-fields")] + [{"template": name, "text": True} for name in TEXT_TEMPLATES] + [{"template": name, "rejected": True} for name in REJECTED_TEMPLATES]
 
 
 def cases(shard, tier):
-    yield {"template": shard["template"], "text": shard.get("text", False), "tier": tier}
+    yield {"template": shard["template"], "text": shard.get("text", False), "tier": tier, **({"rejected": True} if shard.get("rejected") else {})}
 
 
 def sizes(tier, e_only=None):
@@ -277,13 +290,16 @@ def check_case(case, R: engine.Acc):
     for e, n in todo:
         if n > 2**63:
             continue
-        if name in TEXT_TEMPLATES:
+        if name in REJECTED_TEMPLATES:
+            ops = [("read-rejected-definition", (lambda files=REJECTED_TEMPLATES[name](n): api.read_namespace_tree(files, "vns").error))]
+            desc = other = None
+        elif name in TEXT_TEMPLATES:
             ops = [("read-definition", (lambda files=TEXT_TEMPLATES[name](n): api.read_namespace_tree(files, "vns").error))]
             desc = other = None
         else:
             desc = mk(n)
             other = mk(n + 1 if n + 1 < 2**63 else n - 1)
-        if name in TEXT_TEMPLATES:
+        if name in TEXT_TEMPLATES or name in REJECTED_TEMPLATES:
             pass
         elif case.get("text"):
             ops = [("read-definition", (lambda d=desc: api.read_namespace_tree(T.to_files(d), "vns").error))]
@@ -298,6 +314,10 @@ def check_case(case, R: engine.Acc):
             except engine.CaseTimeout:
                 R.outcome("timeout")
                 R.violation("operation-does-not-terminate:%s" % opname, "the operation terminates in time independent of the capacity", one, observed="> 20 s")
+                failed = True
+                break
+            if case.get("rejected") and (out is None or not out.get("ide")):
+                R.violation("faulty-definition-not-rejected-cleanly", "harness: the template is an invalid definition and is rejected with InvalidDefinitionError", one, observed=out)
                 failed = True
                 break
             if case.get("text") and out is not None:
